@@ -40,14 +40,19 @@ def gen_world(rng, i, tier):
 def build_plans(world):
     read = world["read"]
     ops = gen.prologue_ops(read)
+    late = gen.late_global_ops(read)
     if read["ep"] == "readDirs":
         pd = "PARSING_DIRS=%s:%s" % (gen.dirarg(read, read.get("usr")) or "", gen.dirarg(read, read.get("etc")) or "")
+        # the objects of the two econf_readConfig calls are created first; a "late" final setting of the
+        # process-wide drop-in list comes after that and is in force for every read below
+        for slot in (2, 3):
+            ops.append({"op": "newOpts", "o": slot, "options": pd})
+        ops += late
         ops.append(dict(gen.read_op(read, o=0), tag="r_dirs"))
         ops.append({"op": "dump", "k": 0, "ext": False, "tag": "d_dirs"})
         ops.append(dict(gen.read_op(read, o=1, cb={}), tag="r_dirs_cb"))
         ops.append({"op": "dump", "k": 1, "ext": False, "tag": "d_dirs_cb"})
         for slot, cb, tag in ((2, None, "config"), (3, {}, "config_cb")):
-            ops.append({"op": "newOpts", "o": slot, "options": pd})
             op = {"op": "readConfig", "in": slot, "o": slot, "project": None, "usr_subdir": None, "name": read["name"], "suffix": read.get("suffix"),
                   "delim": read["delim"], "comment": read["comment"], "tag": "r_" + tag}
             if cb is not None:
@@ -72,6 +77,8 @@ def build_plans(world):
     else:
         for slot, cb, tag in ((2, None, "config"), (3, {}, "config_cb")):
             ops.append({"op": "newOpts", "o": slot, "options": gen.option_string(read)})
+            if slot == 2:
+                ops += late
             ops.append(dict(gen.read_op(read, o=slot, cb=cb, in_slot=slot), tag="r_" + tag))
             ops.append({"op": "dump", "k": slot, "ext": False, "tag": "d_" + tag})
             ops.append({"op": "free", "k": slot})
